@@ -140,6 +140,7 @@ func TestC16Standin(t *testing.T) {
 		nConv := 0
 		attached := map[string]bool{} // tags the converter is attached to
 		tags := map[string]bool{}
+		resetSinceTagD := false // the converter's cache was reset (last user detached) while tag/d existed
 		imp := func(pk []pcapOverIPPacket) {
 			pcaps, err := writePcaps(mgr.PcapDir, pk)
 			if err != nil {
@@ -199,6 +200,9 @@ func TestC16Standin(t *testing.T) {
 				}
 				if mgr.UpdateTag(n, UpdateTagOperationSetConverter(set)) == nil {
 					attached[n] = !attached[n]
+					if anyOn := attached["service/s"] || attached["tag/t"] || attached["tag/u"]; !anyOn && tags["tag/d"] {
+						resetSinceTagD = true
+					}
 					ops = append(ops, fmt.Sprintf("SetConverter(%s,%v)", n, set))
 				}
 			default:
@@ -280,7 +284,27 @@ func TestC16Standin(t *testing.T) {
 				if err1 != nil || err2 != nil {
 					fail("read-error", hist, fmt.Sprintf("search tag:d: %v %v", err1, err2))
 				} else if fmt.Sprint(a) != fmt.Sprint(b) {
-					fail("tag-on-old-output", hist, fmt.Sprintf("the service is quiet, tag/d := %q is decided for %v, its definition selects %v", tagDefs["tag/d"], a, b))
+					// known finding, classified apart per failure: since the tag exists the converter was detached from
+					// the last tag that used it (which resets its cache) and the tag only keeps streams - nothing is missing
+					class := "tag-on-old-output"
+					sel := map[uint64]bool{}
+					for _, id := range b {
+						sel[id] = true
+					}
+					dec := map[uint64]bool{}
+					for _, id := range a {
+						dec[id] = true
+					}
+					missing := false
+					for id := range sel {
+						if !dec[id] {
+							missing = true
+						}
+					}
+					if resetSinceTagD && !missing {
+						class = "tag-on-reset-output"
+					}
+					fail(class, hist, fmt.Sprintf("the service is quiet, tag/d := %q is decided for %v, its definition selects %v", tagDefs["tag/d"], a, b))
 				}
 			}
 			// the output shown for every stream is the output for its current payload
